@@ -206,8 +206,8 @@ def evaluate(case, clines, mlines):
                 def classify(what, generic):
                     if hd.get("nonnull") == "0":
                         viol.append(("name-unset", "name set on one side only: diff_build returns 0 with a NULL old/new value; " + what))
-                    elif hypA.get("info_names_nodup") == "0":
-                        viol.append(("dup-info-name", "object with two infos of the same name: " + what))
+                    elif hd.get("dupname_hit") == "1":
+                        viol.append(("dup-info-name", "the built list holds an INFO entry on an object carrying that info name twice: " + what))
                     else:
                         viol.append((generic + ":" + case, what))
                 ap = next((l for l in L if l.startswith("apply ")), None)
@@ -240,10 +240,11 @@ def evaluate(case, clines, mlines):
                 continue
             rc = int(res.split()[1])
             if rc < 0 and state(L, "H") != stateA:
-                if hh.get("slots_distinct") == "0":
+                if hh.get("dupname_hit") == "1":
+                    viol.append(("dup-info-name", "the list holds an INFO entry on an object carrying that info name twice: apply returns %d but undoing that entry patched the other same-named info" % rc))
+                elif hh.get("slots_distinct") == "0":
+                    # fixed in 751402d: only a regression of that fix comes out here
                     viol.append(("rollback-forward-order", "apply returns %d but the topology is not as before: the cancel loop undoes the applied entries first to last" % rc))
-                elif hypA.get("info_names_nodup") == "0":
-                    viol.append(("dup-info-name", "rollback with two infos of the same name in one object"))
                 else:
                     viol.append(("rollback:" + case, "apply returns %d but the topology is not as before the call" % rc))
             if flags & ~1 and rc != -1:
@@ -265,6 +266,13 @@ def evaluate(case, clines, mlines):
 
 
 def check(run, replay=None):
+    # replay files of earlier runs (seeded trees, other tiers) must not be taken for findings of this run
+    for f in glob.glob(os.path.join(C.REPLAY, "C16-*.case")):
+        if not (replay and os.path.abspath(f) == os.path.abspath(replay)):
+            try:
+                os.unlink(f)
+            except OSError:
+                pass
     proof = C.prove("C16")
     exe = C.build_harness("hwv_diff", ["hwv_diff.c"])
     drv = C.extract("C16", "drv_c16.ml")
